@@ -665,6 +665,29 @@ class Executor:
                     st.env[test.left.id] = None
         elif isinstance(test, ast.Name) and truth:
             payload(test.id)
+        elif isinstance(test, ast.Call) and isinstance(test.func, ast.Name) and test.func.id == "isinstance" and len(test.args) == 2 and isinstance(test.args[0], ast.Name):
+            # isinstance(x, T) on a guarded local: keep the alternatives that are (not) instances of T
+            name = test.args[0].id
+            v = st.env.get(name)
+            if isinstance(v, SGuard):
+                try:
+                    rs = self.eval(test.args[1], st)
+                    t = rs[0].v if len(rs) == 1 and isinstance(rs[0], Val) else None
+                    if t is not None:
+                        alts = []
+                        for g, x in v.alts:
+                            r = self.models.isinstance_(x, t)
+                            if isinstance(r, bool):
+                                if r == truth:
+                                    alts.append((g, x))
+                            else:
+                                alts.append((g, x))
+                        if len(alts) == 1:
+                            st.env[name] = alts[0][1]
+                        elif alts:
+                            st.env[name] = SGuard(alts)
+                except Unsupported:
+                    pass
         elif isinstance(test, ast.BoolOp) and isinstance(test.op, ast.And) and truth:
             for v in test.values:
                 self.narrow(v, True, st)
@@ -1327,11 +1350,29 @@ class Executor:
                         kwargs.update(self.models.mapping_items(self, v, node))
                     else:
                         kwargs[k.arg] = v
-                out.extend(self.call(fr_.v, args, kwargs, cur, node))
+                fnv = fr_.v
+                if cur is not fr_.st and isinstance(f, ast.Attribute) and _pure_ref(f.value):
+                    # evaluating the arguments forked the state: the receiver of a method call must be the
+                    # (cloned) object of the state the call runs in, not the one of the state before the fork
+                    again = self.eval(f, cur)
+                    if len(again) == 1 and not isinstance(again[0], Exc) and again[0].st is cur:
+                        fnv = again[0].v
+                out.extend(self.call(fnv, args, kwargs, cur, node))
         return out
 
     def call(self, fn, args, kwargs, st, node):
         return self.models.call(self, fn, args, kwargs, st, node)
+
+
+def _pure_ref(node):
+    """Name, attribute chain or constant subscript of one: re-evaluating it has no effect."""
+    if isinstance(node, ast.Name):
+        return True
+    if isinstance(node, ast.Attribute):
+        return _pure_ref(node.value)
+    if isinstance(node, ast.Subscript) and isinstance(node.slice, ast.Constant):
+        return _pure_ref(node.value)
+    return False
 
 
 def _same(x, y):
